@@ -213,6 +213,9 @@ func (t *Teamserver) ListenerEdit(Type int, Config any) {
 				t.Listeners[i].Config.(*handlers.HTTP).Config.Uris = Config.(handlers.HTTPConfig).Uris
 				t.Listeners[i].Config.(*handlers.HTTP).Config.Proxy = Config.(handlers.HTTPConfig).Proxy
 				t.Listeners[i].Config.(*handlers.HTTP).Config.BehindRedir = t.Profile.Config.Demon.TrustXForwardedFor
+
+				// the edit has to survive a restart as well: write the new values into the saved config
+				t.listenerEditSave(t.Listeners[i].Name, t.Listeners[i].Config.(*handlers.HTTP).Config)
 			}
 
 		}
@@ -223,6 +226,42 @@ func (t *Teamserver) ListenerEdit(Type int, Config any) {
 
 	}
 
+}
+
+// listenerEditSave
+// updates the editable settings in the saved (TS_Listeners) config of an HTTP listener.
+func (t *Teamserver) listenerEditSave(Name string, Config handlers.HTTPConfig) {
+	for _, listener := range t.DB.ListenerAll() {
+		if listener["Name"] != Name {
+			continue
+		}
+
+		var Info = make(map[string]any)
+		if err := json.Unmarshal([]byte(listener["Config"]), &Info); err != nil {
+			logger.Error("Failed to read saved listener config: " + err.Error())
+			return
+		}
+
+		Info["UserAgent"] = Config.UserAgent
+		Info["Headers"] = strings.Join(Config.Headers, ", ")
+		Info["Uris"] = strings.Join(Config.Uris, ", ")
+		Info["Proxy Enabled"] = Config.Proxy.Enabled
+		Info["Proxy Type"] = Config.Proxy.Type
+		Info["Proxy Host"] = Config.Proxy.Host
+		Info["Proxy Port"] = Config.Proxy.Port
+		Info["Proxy Username"] = Config.Proxy.Username
+		Info["Proxy Password"] = Config.Proxy.Password
+
+		ConfigJson, err := json.Marshal(Info)
+		if err == nil {
+			err = t.DB.ListenerUpdate(Name, string(ConfigJson))
+		}
+		if err != nil {
+			logger.Error("Failed to save edited listener config: " + err.Error())
+		}
+
+		return
+	}
 }
 
 // ListenerAdd
